@@ -57,7 +57,7 @@ CLAIMS["C09"] = {
 CLAIMS["C18"] = {
     "technique": "rapid state machines: Bridge vs a model of the scripted impairments (hand-offs counted exactly), dpipe vs FIFO-per-direction model",
     "engine": "rapid-models",
-    "text": "Generated-input search: histories of writes in both directions interleaved with DropNextNWrites, ReorderNextNWrites (repeatedly, n=1..4), Drop, Reorder, Filter, Tick and Process, with truncating and non-truncating readers; the model applies the script to two queues and every hand-over is attributed by queue-length deltas, so the comparison 'reader received exactly the model's sequence' does not depend on timing; combinations the documentation leaves unspecified fall back to the weak oracle (no duplicate, nothing invented, intact). dpipe: FIFO per direction, one message per read, truncation, close of one end; a second machine fills a direction to its capacity of 1000 messages, parks further writers inside Write and closes either end: every write that reported success is read by the peer exactly once. Two free-running units run Bridge writers, readers and Tick/Process concurrently (exactly-once, per-direction order where no reordering is scripted) and Tick against ReorderNextNWrites. Exploration only.",
+    "text": "Generated-input search: histories of writes in both directions interleaved with DropNextNWrites, ReorderNextNWrites (repeatedly, n=1..4), Drop, Reorder, Filter, Tick and Process, with truncating and non-truncating readers, also with readers that start at a drawn later step (every Tick before that must hand over nothing); the model applies the script to two queues and every hand-over is attributed by queue-length deltas, so the comparison 'reader received exactly the model's sequence' does not depend on timing; combinations the documentation leaves unspecified fall back to the weak oracle (no duplicate, nothing invented, intact). dpipe: FIFO per direction, one message per read, truncation, close of one end; a second machine fills a direction to its capacity of 1000 messages, parks further writers inside Write and closes either end: every write that reported success is read by the peer exactly once. Two free-running units run Bridge writers, readers and Tick/Process concurrently (exactly-once, per-direction order where no reordering is scripted) and Tick against ReorderNextNWrites. Exploration only.",
     "note": "Trusted: the model's order of script application (drop counter, reorder batch, filter) for the unambiguous cases; Bridge.SetLossChance and write deadlines are not exercised.",
     "design_ref": "DESIGN.md §3 C18",
 }
@@ -65,7 +65,7 @@ CLAIMS["C18"] = {
 CLAIMS["C16"] = {
     "technique": "rapid-generated streams through the loss filter into a recording sink: equality / emptiness / subsequence oracle and a 6-sigma binomial bound",
     "engine": "rapid-models",
-    "text": "Generated-input search: chances {0,1,5,50,95,99,100,101,1000, negative} and uniform 0..100, streams of 0..2000 tagged chunks (40000 for the statistical cases) are pushed through NewLossFilter in front of a sink NIC; (UDP chunks and TCP segments with drawn control bits); chance 0 must forward everything, chance >= 100 nothing, the output is always an in-order, duplicate-free, byte-identical subsequence whose chunks show the same String(), Tag(), Network() and addresses as on arrival, and on 40000 chunks the dropped count must lie within 6 sigma of N*p. An end-to-end variant attaches NewLossFilter(host) to a router through the public API and checks the same on what the socket behind it receives. A long-stream unit pushes 16 million arrivals through one filter and applies the 6-sigma bound at every power-of-two stream length from 65536 on. Exploration plus statistical tests.",
+    "text": "Generated-input search: chances {0,1,5,50,95,99,100,101,1000, negative} and uniform 0..100, streams of 0..2000 tagged chunks (40000 for the statistical cases) are pushed through NewLossFilter in front of a sink NIC; (UDP chunks and TCP segments with drawn control bits); chance 0 must forward everything, chance >= 100 nothing, the output is always an in-order, duplicate-free, byte-identical subsequence whose chunks show the same String(), Tag(), Network() and addresses as on arrival, and on 40000 chunks the dropped count must lie within 6 sigma of N*p. An end-to-end variant attaches NewLossFilter(host) to a router through the public API and checks the same on what the socket behind it receives. A long-stream unit pushes 16 million arrivals through one filter and applies the 6-sigma bound at every power-of-two stream length from 65536 on. A concurrent unit lets 2..8 goroutines push 20000..80000 chunks each through one filter at the same time (no panic, chance 0 loses nothing, per-goroutine subsequence, 6 sigma on the total). Exploration plus statistical tests.",
     "note": "Trusted: in-package sink shim (shims/vnet); the statistical assertion has a false-alarm probability below 2e-9 per case.",
     "design_ref": "DESIGN.md §3 C16",
 }
@@ -111,7 +111,7 @@ CLAIMS["C13"] = {
 CLAIMS["C17"] = {
     "technique": "rapid-drawn programs and schedules over the yield-instrumented context wrappers (operation, canceller and watcher goroutines as scheduler tasks), quiescence oracle with a deadline-recording decorator",
     "engine": "sched",
-    "text": "The harness owns the schedule of netctx.Conn, netctx.PacketConn and connctx over net.Pipe: every lock/channel/select/WaitGroup operation, every call on the wrapped connection and every go statement of the three wrapper files yields to the controller, so 'the context fires while data is being handed over' and 'the watcher sees ctx.Done after the read returned' are drawn choices. At quiescence: every operation whose context is done has returned; 0 bytes => exactly the context's error; bytes received == bytes reported written (+ a prefix of a write in flight); a decorator around the wrapped conn shows no deadline left after any returned operation. A second, free-running variant runs drawn programs on real goroutines and the real clock (stream wrappers over net.Pipe, netctx.PacketConn over a loopback UDP pair) with contexts that time out or are cancelled 0..2 ms into the operation, followed by probe reads with fresh contexts until everything reported written has arrived: same per-operation rules, byte/message conservation in order, nothing beyond. Exploration of drawn schedules and timings.",
+    "text": "The harness owns the schedule of netctx.Conn, netctx.PacketConn and connctx over net.Pipe: every lock/channel/select/WaitGroup operation, every call on the wrapped connection and every go statement of the three wrapper files yields to the controller, so 'the context fires while data is being handed over' and 'the watcher sees ctx.Done after the read returned' are drawn choices; in a quarter of the programs the operations of one kind on one end are issued by two tasks, so that operations wait for their turn behind each other (also: cancelled while waiting). At quiescence (confirmed by two whole-process snapshots): every operation whose context is done has returned (unless it still waits for its turn behind an operation of its kind with a live context); 0 bytes => exactly the context's error; bytes received == bytes reported written (+ a prefix of a write in flight); a decorator around the wrapped conn shows no deadline left after any returned operation. A second, free-running variant runs drawn programs on real goroutines and the real clock (stream wrappers over net.Pipe, netctx.PacketConn over a loopback UDP pair) with contexts that time out or are cancelled 0..2 ms into the operation, followed by probe reads with fresh contexts until everything reported written has arrived: same per-operation rules, byte/message conservation in order, nothing beyond. Exploration of drawn schedules and timings.",
     "note": "Trusted: net.Pipe as the wrapped connection (atomic for the scheduler), goroutine wait states from runtime.Stack. Wrapped connections that ignore deadlines are outside the statement.",
     "design_ref": "DESIGN.md §3 C17",
 }
@@ -119,7 +119,7 @@ CLAIMS["C17"] = {
 CLAIMS["C11"] = {
     "technique": "rapid state machine over a real loopback listener against a remote->connection/backlog model, marker datagrams for negative answers; concurrent bursts with isolation/order/duplicate oracle",
     "engine": "rapid-models",
-    "text": "Generated-input search on real sockets: backlog {1,2,4,128}, accept filter on/off, batch reading off/2/8, 1..6 remotes on the same IP; steps send / accept / read / close / send-again / gated bursts (datagrams of several remotes, accepted, refused, overflowing, written while the read loop is held and dispatched from one batch); after every send a marker datagram from an always-accepted remote is read back, which proves (single-threaded FIFO read loop) that the earlier datagram has been dispatched, so 'created nothing' is decided without sleeping. Accept order and RemoteAddr, every Read (byte-identical next datagram of that remote), backlog overflow, filter refusal and reconnect-after-close (fresh object) are compared with the model; finally the backlog must hold nothing the model does not know. A concurrent test checks isolation, per-remote order, no duplicates and unique RemoteAddr under bursts. A controlled-schedule variant runs connection Close, per-remote senders and Accept as scheduler tasks over the yield-instrumented conn.go (a datagram arriving while the Close of its connection is under way) and then checks with real I/O that no two open connections share a remote and that a final datagram per remote is readable from exactly one. Exploration only.",
+    "text": "Generated-input search on real sockets: backlog {1,2,4,128}, accept filter on/off, batch reading off/2/8, listener on 127.0.0.1, on the unspecified address of a dual-stack socket, on 0.0.0.0 or on [::1], 1..6 remotes (different ports, other addresses of 127/8 with one port, on the dual-stack listener IPv6 remotes with the port of an IPv4 one); steps send / accept / read / close / send-again / gated bursts (datagrams of several remotes, accepted, refused, overflowing, written while the read loop is held and dispatched from one batch); after every send a marker datagram from an always-accepted remote is read back, which proves (single-threaded FIFO read loop) that the earlier datagram has been dispatched, so 'created nothing' is decided without sleeping. Accept order and RemoteAddr, every Read (byte-identical next datagram of that remote), backlog overflow, filter refusal and reconnect-after-close (fresh object) are compared with the model; finally the backlog must hold nothing the model does not know. A concurrent test checks isolation, per-remote order, no duplicates and unique RemoteAddr under bursts. A controlled-schedule variant runs connection Close, per-remote senders and Accept as scheduler tasks over the yield-instrumented conn.go (a datagram arriving while the Close of its connection is under way) and then checks with real I/O that no two open connections share a remote and that a final datagram per remote is readable from exactly one. Exploration only.",
     "note": "Assumes in-order, loss-free loopback delivery at the sequential test's volumes (one datagram in flight at a time); the concurrent test does not assert completeness. Datagrams above the receive MTU are not generated.",
     "design_ref": "DESIGN.md §3 C11",
 }
@@ -142,7 +142,7 @@ CLAIMS["C10"] = {
 CLAIMS["C19"] = {
     "technique": "rapid-generated concurrent client programs executed under the Go race detector (binary built with -race, GORACE=halt_on_error=1)",
     "engine": "race",
-    "text": "Generated client programs: a family of shared objects (Buffer; Deadline; dpipe pair; vnet router/hosts/sockets with ListenUDP, Dial, AddChunkFilter, Stop/Start; TokenBucketFilter and LossFilter under traffic with run-time Set(TBFRate|TBFMaxBurst); udp listener and connections on a real socket; parallel construction of independent networks; a LAN router behind a NAPT with outbound traffic to known and new remotes, inbound traffic to the learned external address, new sockets and mapping expiry), 2..6 goroutines with 1..8 drawn operations each, every program run twice for real. Oracle: the race detector; a report names two conflicting accesses unordered by happens-before in that run, independent of adverse timing. The program is printed before it runs; the replay command re-runs the last printed program 50 times. Exploration of the program space, no shrinking.",
+    "text": "Generated client programs: a family of shared objects (Buffer; Deadline; dpipe pair; vnet router/hosts/sockets with ListenUDP, Dial, AddChunkFilter, Stop/Start; TokenBucketFilter and LossFilter under traffic with run-time Set(TBFRate|TBFMaxBurst); udp listener and connections on a real socket; parallel construction of independent networks; a LAN router behind a NAPT with outbound traffic to known and new remotes, inbound traffic to the learned external address, new sockets and mapping expiry), 2..6 goroutines with 1..8 drawn operations each, every program run twice for real. Oracle: the race detector; a report names two conflicting accesses unordered by happens-before in that run, independent of adverse timing. The program is printed before it runs; the replay command re-runs the last printed program 50 times. A second unit (in-package, also under the race detector) lets 2..5 goroutines enter one loss, token bucket or delay filter, or a chain of the three, at once through the NIC entry point while a setter reconfigures the token bucket. Exploration of the program space, no shrinking.",
     "note": "Sees only races between accesses a generated program performs; API combinations outside the catalogue and instruction-level races the detector does not instrument (assembly) are not covered.",
     "design_ref": "DESIGN.md §3 C19",
 }
